@@ -415,8 +415,8 @@ func runC06(c *Ctx) {
 				}
 			}
 			for i, wr := range writes {
-				if isLocalAlloc(bases[i]) {
-					continue // a state object created in this function (Copy / New): its cache is empty
+				if isLocalAlloc(bases[i]) || freshInAllCallers(w, fn, bases[i]) {
+					continue // a state object created in this function or handed in fresh by all callers (Copy / New): its cache is empty
 				}
 				nW++
 				c.sites++
@@ -469,4 +469,31 @@ func c06Variants() []Variant {
 		{Name: "clock-in-log-topic", File: "staking/handler.go", Old: "		Topics:      []common.Hash{common.StringToHash(LogTopicWithdraw), tx.MainAddress.Hash()},\n		Data:        combinePendingStakingLogData(ctx.Cfg.CurrYouParams.StakingTrieFrequency, number, finalStaking),", New: "		Topics:      []common.Hash{common.StringToHash(LogTopicWithdraw), tx.MainAddress.Hash(), common.BigToHash(big.NewInt(time.Now().Unix()))},\n		Data:        combinePendingStakingLogData(ctx.Cfg.CurrYouParams.StakingTrieFrequency, number, finalStaking),", Rule: "C06.N2", Construct: "handleWithdraw#Now"},
 		{Name: "seal-only-rewards", File: "staking/endblock.go", Old: "		// rewards to pool for each block\n		rewardsToPool(ctx)", New: "		// rewards to pool for each block\n		if !isSeal || header.Number.Uint64()%7 != 0 {\n			rewardsToPool(ctx)\n		}", Rule: "C06.N3", Construct: "isSeal-use"},
 	}
+}
+
+// freshInAllCallers: v is a parameter of fn and every static caller passes an
+// object it allocated itself (a tail of a constructor / copy function split off
+// into a helper that receives the new object).
+func freshInAllCallers(w *World, fn *ssa.Function, v ssa.Value) bool {
+	p, ok := stripConvNoBind(v).(*ssa.Parameter)
+	if !ok {
+		return false
+	}
+	idx := -1
+	for i, q := range fn.Params {
+		if q == p {
+			idx = i
+		}
+	}
+	cs := w.Callers(fn)
+	if idx < 0 || len(cs) == 0 {
+		return false
+	}
+	for _, ci := range cs {
+		args := ci.Common().Args
+		if idx >= len(args) || !isLocalAlloc(args[idx]) {
+			return false
+		}
+	}
+	return true
 }
